@@ -105,7 +105,7 @@ def _witness_near_fluid():
     # radial functions inside are noise and the integrated kernel is 1e6-1e11 times -Im k
     return {'n_solid': 1, 'liquid_pos': 0, 'dynamic': [False], 'weights': [1.0], 'logrho_top': 3.6, 'rho_ratios': [1.0],
             'logmu': [7.5], 'logtan': [-1.0], 'logK': [10.5], 'logR': 7.2, 'l': 2, 'N': 354, 'logfreq': -5.0, 'method': 'DOP853',
-            'logrtol': -8.0, 'e': 0.008, 'loga': 8.0, 'logM': 25.0, 'warp': [0.0]}
+            'logrtol': -8.0, 'e': 0.008, 'loga': 8.0, 'logM': 25.0, 'warp': [0.0], 'no_floor': True}
 
 
 def required_labels(tier):
@@ -113,6 +113,9 @@ def required_labels(tier):
 
 
 _TIER = ['quick']
+
+
+SOFT_FLOOR = 3.0e-3
 
 
 def shard_setup(tier):
@@ -140,6 +143,12 @@ def _spec(case, mult):
     for i, k in enumerate(kinds):
         mu = 10.0 ** case['logmu'][i]
         t = 10.0 ** case['logtan'][i]
+        # keep every solid layer out of the near-fluid regime in which the solver's own radial functions are noise
+        # (KF-C05-near-fluid-layer; seen from |mu| ~ 8e-4 S in a 4-layer stack with a liquid): |mu| >= SOFT_FLOOR * S with
+        # S = (4/3) pi G rho_layer^2 R^2, by construction (the modulus is raised, the case is not discarded)
+        S = 4.0 / 3.0 * math.pi * G * rho[i] ** 2 * (10.0 ** case['logR']) ** 2
+        if k == 'solid' and mu * math.sqrt(1.0 + t * t) < SOFT_FLOOR * S and not case.get('no_floor'):
+            mu = SOFT_FLOOR * S / math.sqrt(1.0 + t * t)
         layers.append({'type': k, 'static': True if k == 'liquid' else not case['dynamic'][i], 'incomp': False,
                        'top_frac': float(tops[i]), 'rho': rho[i], 'mu': [mu, mu * t], 'K': 10.0 ** case['logK'][i],
                        'n': max(8, int(round(case['N'] * frac[i]))) * mult})
@@ -227,10 +236,9 @@ def evaluate(case):
         # to a free-oscillation resonance: k = -1.46, rho = 1.9e6, 5.7e4, 4.3e3): 4N slices do not resolve it; undecided
         return discard('unresolved_still_converging', labels)
     else:
-        # regime: a solid layer whose |mu| lies below the generated range (10^9.5 Pa) - only reachable through the fixed witness
+        # regime: the modulus floor was switched off - only the fixed witness does that
         # of KF-C05-near-fluid-layer; generated cases are always 'regular'
-        soft = any(10.0 ** m * math.sqrt(1.0 + 100.0 ** t) < 10.0 ** 8.5 for m, t, L in
-                   zip(case['logmu'], case['logtan'], a['spec']['layers']) if L['type'] == 'solid')
+        soft = bool(case.get('no_floor'))
         c.fail({'clause': 'energy', 'what': 'does_not_vanish_with_refinement', 'regime': 'near_fluid_layer' if soft else 'regular'},
                detail + '; bound %.3e' % bound)
     if case['l'] == 2:
